@@ -605,6 +605,9 @@ def recv_gating(ctx, B, rule="R06.3"):
                     if sw2.kind == "switch":
                         false_t = [tt for v, tt in sw2.cases if v == 0]
                         ok = bool(false_t) and not cfg.reaches(false_t[0], b2) and cfg.dominates(past[0][0], b2)
+                        # an unarmed timer (None) must count as "not expired": the map_or default is `false`
+                        dflt = [a.const_bool() for a in past[0][1].args if a.is_const() and a.const_fn() is None]
+                        ok = ok and dflt == [False]
             ctx.require(ok, rule, "expiry-fastpath", "an already expired timer is taken (cleared) and turned into the forced control only when is_past() holds",
                         f.loc(f.line), fail="the forced control can be produced before the grace period has elapsed, or without clearing the timer")
 
@@ -974,15 +977,47 @@ def ticket_shape(ctx, rule="R07.6"):
     ctx.require(ok, rule, "cancelled-is-raised", "Ticket::cancelled() has both flags raised", c.loc(c.line))
     s = ctx.anchor_fn(rule, SUP + "::job::job::Job::send_controls")
     # `if N == 0 || self.gone.raised() { Ticket::cancelled() }`
-    ifs = thir.find(thir.root(s), "if")
-    ok = False
-    if ifs:
-        top = ifs[0]
-        cd = pathx.desc(top["c"])
-        tv = thir.expr_value(top["t"])
-        ok = "Flag::raised(self.gone)" in pathx.desc(top["c"]) or any(strip_generics(c2).endswith("Flag::raised") for c2, _ in thir.calls_in(top["c"]))
-        ok = ok and tv[0] == "call" and tv[1].endswith("Ticket::cancelled")
-    ctx.require(ok, rule, "dead-job-cancelled", "controls sent to a dead job return an already-resolved ticket", s.loc(s.line))
+    # path rule over send_controls: whenever the gone flag is observed raised the result is Ticket::cancelled() and nothing is
+    # sent; whenever it is observed not raised (and N > 0) the result is a prepared ticket and every prepared control is sent
+    from .throttle import implies
+    GONE = "Flag::raised(self.gone)"
+    en = pathx.Enum(interesting=lambda d: any(strip_generics(d).endswith(x) for x in ("Ticket::cancelled", "PrioritySender::send", "Job::prepare_control", "Flag::raised")))
+    ps = en.paths(thir.root(s)["e"] if thir.root(s).get("k") == "block_wrapper" else thir.root(s))
+    n_dead = n_live = 0
+    bad = []
+    for p_ in ps:
+        def count(evs):
+            names = [strip_generics(e[1]) for e in evs if e[0] == "call"]
+            return (sum(1 for n_ in names if n_.endswith("PrioritySender::send")), sum(1 for n_ in names if n_.endswith("Job::prepare_control")),
+                    sum(1 for n_ in names if n_.endswith("Ticket::cancelled")))
+        sends, preps, canc = count(p_.ev)
+        unbalanced = False
+        for e in p_.ev:
+            if e[0] == "loop":      # each iteration of the N > 1 loop prepares one control and sends it
+                for it in e[1]:
+                    s_, p2, c_ = count(it)
+                    sends += s_
+                    preps += p2
+                    canc += c_
+                    unbalanced = unbalanced or s_ != p2
+        if unbalanced:
+            bad.append("an iteration prepares a control without sending it (or the reverse): " + pathx.show_events(p_.ev))
+        # "the job is known alive and there is something to send" must be evidenced by the conditions on the path
+        alive = any(e[0] == "branch" and implies(e[1], e[2], GONE, False) for e in p_.ev)
+        nonempty = any(e[0] == "branch" and implies(e[1], e[2], "constparam Eq 0", False) for e in p_.ev)
+        if alive and nonempty:
+            n_live += 1
+            if canc or preps == 0 or sends != preps:
+                bad.append("job alive and N > 0, yet " + pathx.show_events(p_.ev))
+        else:
+            # the job may be gone (or N == 0): the ticket must be the already-resolved one and nothing may be queued
+            n_dead += 1
+            if sends or preps or canc != 1:
+                bad.append("job possibly gone (no condition on the path rules it out), yet " + pathx.show_events(p_.ev))
+    ok = not bad and n_dead >= 1 and n_live >= 1
+    ctx.require(ok, rule, "dead-job-cancelled", "send_controls: gone raised => Ticket::cancelled() and nothing sent; gone not raised => every prepared control sent "
+                "(%d dead path(s), %d live path(s))" % (n_dead, n_live), s.loc(s.line), detail="; ".join(bad)[:600],
+                fail="send_controls no longer maps a dead job to an already-resolved ticket and a live job to a sent control: " + "; ".join(bad)[:400])
     pc = ctx.anchor_fn(rule, SUP + "::job::job::Job::prepare_control")
     v = thir.expr_value(thir.root(pc))
     ok = False
